@@ -1234,6 +1234,21 @@ func (self *LockManager) ProcessRecoverLockData(lock *Lock) {
 		return
 	}
 	recoverData, recoverValue := lock.data.recoverData, lock.data.recoverValue
+	if self.currentData == currentData || recoverValue == nil {
+		if self.currentData == currentData {
+			if recoverData == nil {
+				self.currentData = NewLockManagerDataUnsetData(false)
+			} else {
+				self.currentData = recoverData
+				self.currentData.isAof = false
+			}
+		}
+		lock.data.commandDatas = nil
+		if lock.data.ProcessAckClear() {
+			lock.data = nil
+		}
+		return
+	}
 
 	switch currentData.commandType {
 	case protocol.LOCK_DATA_COMMAND_TYPE_SET:
